@@ -12,6 +12,7 @@ import (
 	"io"
 	"os"
 	"path/filepath"
+	"sort"
 	"time"
 
 	"github.com/Tnze/go-mc/save/region"
@@ -117,6 +118,22 @@ func New(c *harness.Ctx, startImage []byte) *Sim {
 	}
 	simrt.SetClock(s.Clock)
 	s.Disk = simdisk.New(append([]byte(nil), startImage...))
+	// legal short reads from the backing file (an io.Reader may return fewer
+	// bytes than asked for): page-bounded or tape-chosen
+	switch tp.Pick(3, 1, 1) {
+	case 1:
+		s.Disk.ReadMode = 1
+	case 2:
+		// private stream seeded by one draw: reads happen inside oracle loops and
+		// must not consume the main tape
+		x := tp.U64() | 1
+		s.Disk.ReadMode, s.Disk.Choose = 2, func(n int) int {
+			x ^= x << 13
+			x ^= x >> 7
+			x ^= x << 17
+			return int(x % uint64(n))
+		}
+	}
 	s.WriterAt = tp.Bool(1, 2)
 	if s.WriterAt {
 		PWriterAt.Hit()
@@ -257,7 +274,7 @@ func (s *Sim) CheckImage(after string) bool {
 			return false
 		}
 	}
-	for k := range s.Model {
+	for _, k := range SortedKeys(s.Model) {
 		if !seen[k] && !s.Unknown[k] {
 			s.C.Fail("region.format", "image", "missing-entry", "after %s: chunk (%d,%d) was written but has no header entry", after, k.X, k.Z)
 			return false
@@ -271,6 +288,7 @@ func (s *Sim) CheckImage(after string) bool {
 func (s *Sim) CheckFresh(after string) bool {
 	PFreshLoad.Hit()
 	cp := simdisk.New(append([]byte(nil), s.Disk.Img...))
+	cp.ReadMode, cp.Choose = s.Disk.ReadMode, s.Disk.Choose
 	fr, err := region.Load(cp)
 	if err != nil {
 		s.C.Fail("region.reload", "fresh-load", "load-error", "after %s: a fresh Load of the file fails: %v", after, err)
@@ -302,7 +320,8 @@ func (s *Sim) CheckFresh(after string) bool {
 			}
 		}
 	}
-	for k, want := range s.Model {
+	for _, k := range SortedKeys(s.Model) {
+		want := s.Model[k]
 		if s.Unknown[k] {
 			continue
 		}
@@ -313,6 +332,23 @@ func (s *Sim) CheckFresh(after string) bool {
 		}
 	}
 	return true
+}
+
+// SortedKeys returns the keys in a fixed order: Go's map iteration order is
+// random, and anything that reads from the disk (short reads are drawn from a
+// PRNG) or reports the first mismatch must not depend on it.
+func SortedKeys(m map[Key][]byte) []Key {
+	ks := make([]Key, 0, len(m))
+	for k := range m {
+		ks = append(ks, k)
+	}
+	sort.Slice(ks, func(i, j int) bool {
+		if ks[i].Z != ks[j].Z {
+			return ks[i].Z < ks[j].Z
+		}
+		return ks[i].X < ks[j].X
+	})
+	return ks
 }
 
 func cloneModel(m map[Key][]byte) map[Key][]byte {
